@@ -54,6 +54,9 @@ def cfg_facts(cfg) -> dict:
         "signed": bool(cfg["signed"]),
         "array_shape": bool(cfg.get("elems")),
         "array_elem_gt1": bool(cfg.get("elems")) and cfg["width"] > 1,
+        "struct_shape": bool(cfg.get("struct")),
+        "nw_zero": cfg["nw"] == 0,  # ROM use: no write port at all
+        "undriven_en": bool(cfg.get("undriven")),  # some read port's enable is left at its reset value
     }
 
 
@@ -74,7 +77,14 @@ def zones_of(cfg) -> list:
         z.append("F6")
     if f["array_elem_gt1"] and f["gran_set"]:  # granularity of array rows: elements (ideal) vs bits (under test)
         z.append("N1")
+    if f["nw_zero"] and f["cls"] != "MultiRead" and f["init_nonzero"]:  # no bank exists that could hold the init
+        z.append("Z0")
     return z
+
+
+# zones whose defect is still present on the unchanged tree (known_findings.json / reported): configurations drawn
+# "freely" stay outside these, the other (repaired) zones are ordinary configurations
+LIVE_ZONES = ("F6", "Z0")
 
 
 class Scen(CompScenario):
@@ -82,7 +92,7 @@ class Scen(CompScenario):
 
     def build(self):
         from amaranth import Module, Signal, Value, signed, unsigned
-        from amaranth.lib.data import ArrayLayout
+        from amaranth.lib.data import ArrayLayout, StructLayout
         from amaranth.lib.memory import Memory
         from transactron.utils.amaranth_ext import memory as tmem
 
@@ -95,17 +105,33 @@ class Scen(CompScenario):
         self.gran = c["gran"]
         self.en_w = en_width(c)
         self.transp = [list(t) for t in c["transp"]]
-        if c.get("elems"):
+        if c.get("struct"):
+            shape = StructLayout({f"f{k}": (signed(w) if sg else unsigned(w)) for k, (w, sg) in enumerate(c["struct"])})
+        elif c.get("elems"):
             shape = ArrayLayout(c["width"], c["elems"])
         else:
             shape = signed(self.width) if c["signed"] else unsigned(self.width)
+        # initial rows of layout-shaped memories are given as constants of the layout (value-like, the documented
+        # element type of `init` of the memories under test; the ideal memory takes them as well); cfg keeps raw bits
+        if c.get("struct") or c.get("elems"):
+            init = [shape.from_bits(v) for v in c["init"]]
+        else:
+            init = list(c["init"])
+        kw = {"attrs": {"ram_style": "block"}} if c.get("attrs") else {}
         cls = getattr(tmem, CLASSES[c["cls"]])
+        if c.get("via_base") and c["cls"] in ILVT:
+            # the same memory through the constructor of the common base class, memory_type given explicitly
+            kw_dut = dict(kw, memory_type=tmem.MultiportXORMemory if c["cls"] == "XORILVT" else tmem.OneHotCodedILVT)
+            cls = tmem.MultiportILVTMemory
+        else:
+            kw_dut = kw
+        self.undriven = sorted(i for i in (c.get("undriven") or []) if i < self.nr)
 
         m = Module()
         dummy = Signal(name="verif_dummy_sync")
         m.d.sync += dummy.eq(~dummy)
-        m.submodules.dut = dut = cls(shape=shape, depth=self.depth, init=list(c["init"]))
-        m.submodules.ref = ref = Memory(shape=shape, depth=self.depth, init=list(c["init"]))
+        m.submodules.dut = dut = cls(shape=shape, depth=self.depth, init=list(init), **kw_dut)
+        m.submodules.ref = ref = Memory(shape=shape, depth=self.depth, init=list(init), **kw)
         ab = addr_bits(self.depth)
         dwp, rwp = [], []
         for j in range(self.nw):
@@ -124,12 +150,15 @@ class Scen(CompScenario):
         for i in range(self.nr):
             d = dut.read_port(transparent_for=[dwp[j] for j in self.transp[i]])
             r = ref.read_port(transparent_for=[rwp[j] for j in self.transp[i]])
-            en = Signal(name=f"r{i}_en")
             addr = Signal(ab, name=f"r{i}_addr")
-            self.add_input(f"r{i}.en", en)
             self.add_input(f"r{i}.addr", addr)
             for p in (d, r):
-                m.d.comb += [p.en.eq(en), p.addr.eq(addr)]
+                m.d.comb += p.addr.eq(addr)
+            if i not in self.undriven:  # an undriven enable keeps its reset value: the ideal port reads every cycle
+                en = Signal(name=f"r{i}_en")
+                self.add_input(f"r{i}.en", en)
+                for p in (d, r):
+                    m.d.comb += p.en.eq(en)
             self.add_obs(f"dut.r{i}", Value.cast(d.data))
             self.add_obs(f"ref.r{i}", Value.cast(r.data))
 
@@ -200,7 +229,13 @@ class Scen(CompScenario):
             rd.append([int(rng.random() < pr), rng.choice(pool)])
 
         free = not any(c >= cyc for c in self.script)
-        if kind == "raw" and rng.random() < max(p, 0.3):
+        if self.nw == 0:  # ROM: nothing to write, the read patterns remain
+            if kind in ("alt", "collide"):
+                a = self.hot if kind == "alt" else rng.choice(pool)
+                for i in range(self.nr):
+                    if rng.random() < 0.7:
+                        rd[i][1] = a
+        elif kind == "raw" and rng.random() < max(p, 0.3):
             j, a, d, i = rng.randrange(self.nw), rng.choice(pool), rng.choice([0, 0, 1, 1, 2]), rng.randrange(self.nr)
             self.script.setdefault(cyc, []).append(("w", j, a, self._mask(rng)))
             self.script.setdefault(cyc + d, []).append(("r", i, a, 1))
@@ -265,6 +300,8 @@ class Scen(CompScenario):
             stim[f"w{j}.en"], stim[f"w{j}.addr"], stim[f"w{j}.data"] = wr[j][0], wr[j][1], wr[j][2]
         for i in range(self.nr):
             stim[f"r{i}.en"], stim[f"r{i}.addr"] = rd[i]
+        for i in self.undriven:  # no such input: the port's enable is never assigned
+            del stim[f"r{i}.en"]
         return stim
 
     # ---- oracle -----------------------------------------------------------------------------
@@ -280,6 +317,8 @@ class Scen(CompScenario):
         reads = []
         for i in range(nr):
             en, a = stim.get(f"r{i}.en", 0), stim.get(f"r{i}.addr", 0)
+            if i in self.undriven:
+                en = 1  # reset value of the enable of a read port of the ideal memory
             self.premise(a < self.depth, f"read port {i} address {a} outside depth {self.depth}")
             reads.append((en, a))
 
@@ -300,6 +339,14 @@ class Scen(CompScenario):
         # what fired (from the applied stimulus)
         hist = self.hist
         sig = []
+        c = self.cfg
+        if cyc == 0:
+            if c.get("attrs"):
+                self.hit("attrs_passed")
+            if c.get("via_base") and c["cls"] in ILVT:
+                self.hit("ilvt_via_base_class")
+            if self.depth == 1:
+                self.hit("depth_one")
         for i, (en, a) in enumerate(reads):
             dist = 3
             for d in (0, 1, 2):
@@ -318,6 +365,27 @@ class Scen(CompScenario):
                 self.hit("en_dropped_between_write_and_readback")
             if en and a not in self.written and a < len(self.cfg["init"]) and self.cfg["init"][a] != 0:
                 self.hit("read_initial_content")
+                if nw == 0:
+                    self.hit("rom_read_initial_content")
+                if c.get("elems") or c.get("struct"):
+                    self.hit("layout_init_read")
+                if self.cfg["init"][a] < 0:
+                    self.hit("negative_init_read")
+                if i in self.undriven:
+                    self.hit("initial_content_read_by_undriven_enable")
+            if en and i in self.undriven:
+                self.hit("read_by_undriven_enable")
+            if en and dist < 3:
+                if i in self.undriven:
+                    self.hit("raw_by_undriven_enable")
+                if i >= 3:
+                    self.hit("raw_on_read_port_ge3")
+                if a >= 16:
+                    self.hit("raw_on_row_ge16")
+                if self.width > 8:
+                    self.hit("raw_row_wider_than_8")
+                if c.get("struct"):
+                    self.hit("raw_struct_row")
             sig.append((en, dist, dist == 0 and writes[a][0] in self.transp[i]))
         for i in range(nr):
             for i2 in range(i + 1, nr):
@@ -333,6 +401,8 @@ class Scen(CompScenario):
                 self.hit("first_write_over_initial_content")
                 if j > 0:
                     self.hit("first_write_over_init_by_port_ge1")
+            if j >= 3:
+                self.hit("write_by_port_ge3")
             if mask != self.full_mask:
                 self.hit("partial_write")
                 if self.last_partial.get(a, j) != j:
@@ -343,6 +413,8 @@ class Scen(CompScenario):
             self.written.add(a)
         if len(writes) > 1:
             self.hit("simultaneous_writes")
+        if len(writes) > 3:
+            self.hit("four_simultaneous_writes")
         self.visit((tuple(sig), len(writes)), nontrivial=any(s[0] and s[1] < 3 for s in sig))
 
         hist.append(writes)
@@ -360,8 +432,10 @@ class Prop(PropBase):
         "quick": {"runs": 2000, "selftest_runs": 4, "shrink_budget_s": 5},
         "thorough": {"runs": 36000, "selftest_runs": 32, "shrink_budget_s": 30},
     }
-    rule = ("one run = one (class, depth, row shape (width, signedness, array of elements), read/write port count, "
-            "init, transparency set per read port, granularity) configuration; the memory under test and an "
+    rule = ("one run = one (class [for the ILVT memories also built through MultiportILVTMemory(memory_type=...)], depth "
+            "1-40, row shape (width 1-64, signedness, array of elements, struct of fields), read port count 1-4, write "
+            "port count 0-4 (0 = ROM), init (also for array / struct / signed rows), transparency set per read port, "
+            "granularity, attrs, set of read ports whose enable is never driven) configuration; the memory under test and an "
             "amaranth.lib.memory.Memory get the same port signals for 60-200 cycles from a seeded phase plan (random / read-after-write at distance "
             "0-2 / alternating writers / dropped read enable / read collisions / idle) over a small per-phase row "
             "pool; distinct = distinct (configuration, per read port (enable, distance to the last write of its "
@@ -371,12 +445,20 @@ class Prop(PropBase):
                     "en_dropped_between_write_and_readback", "write_to_row_under_disabled_read",
                     "read_address_collision", "read_collision_on_written_row", "read_initial_content",
                     "first_write_over_initial_content", "first_write_over_init_by_port_ge1", "partial_write",
-                    "raw_partial_write", "partial_writes_by_two_ports", "simultaneous_writes"]
+                    "raw_partial_write", "partial_writes_by_two_ports", "simultaneous_writes",
+                    "read_by_undriven_enable", "raw_by_undriven_enable", "initial_content_read_by_undriven_enable",
+                    "rom_read_initial_content", "layout_init_read", "negative_init_read", "raw_on_read_port_ge3",
+                    "write_by_port_ge3", "four_simultaneous_writes", "raw_on_row_ge16", "raw_row_wider_than_8",
+                    "raw_struct_row", "depth_one", "attrs_passed", "ilvt_via_base_class"]
     real = ["transactron.utils.amaranth_ext.memory.MultiReadMemory", "…MultiportXORMemory", "…MultiportXORILVTMemory",
             "…MultiportOneHotILVTMemory (with OneHotCodedILVT, Encoder, OneHotMux)", "amaranth.lib.memory.Memory (reference)",
             "amaranth pysim"]
     stubs = ["cycle driver (port-level stimulus)"]
-    assumptions = ["addresses stay below depth", "no two write ports write the same row in one cycle (premise)"]
+    assumptions = ["addresses stay below depth", "no two write ports write the same row in one cycle (premise)",
+                   "initial rows of array / struct shaped memories are given as constants of the layout (value-like, "
+                   "the documented element type of `init`; plain lists / dicts are accepted by the ideal memory only)",
+                   "a read port whose enable is never assigned keeps the reset value of the enable of the ideal "
+                   "memory's read port (1): it reads every cycle"]
     search_space = "memory configurations the constructors accept x port-level histories without same-row double writes"
 
     # rate of configurations placed inside a defect class known on the unchanged tree (DESIGN.md 7)
@@ -392,26 +474,40 @@ class Prop(PropBase):
             cls = "XOR"
         elif want == "F4":
             cls = "XORILVT"
-        depth = rng.choice([2, 3, 4, 5, 6, 7, 8, 9, 12, 16] if not big else list(range(2, 17)))
-        width = rng.choice([1, 2, 2, 3, 4, 4, 6, 8])
+        elif want == "Z0":
+            cls = rng.choice(["XOR", "XORILVT", "OneHotILVT"])
+        if big:
+            depth = rng.choice(list(range(1, 18)) + [24, 31, 32, 33, 48, 64, 65, 100])
+            width = rng.choice([1, 2, 2, 3, 4, 4, 6, 8, 8, 12, 16, 17, 32, 33, 63, 64, 65])
+            ports = [1, 2, 2, 3, 3, 4, 4, 5, 6]
+        else:
+            depth = rng.choice([1, 2, 2, 3, 4, 5, 6, 7, 8, 9, 12, 16, 17, 24, 32, 33, 40])
+            width = rng.choice([1, 2, 2, 3, 4, 4, 6, 8, 8, 12, 16, 17, 32, 64])
+            ports = [1, 2, 2, 3, 3, 4]
         if want == "F3":
             depth = rng.choice([5, 6, 8, 9, 12, 16])
             width = rng.choice([1, 2])
-        nr = rng.choice([1, 2, 2, 3])
-        nw = 1 if cls == "MultiRead" else rng.choice([1, 2, 2, 3])
-        signed = rng.random() < 0.08 and width >= 2
-        elems = 0
+        nr = rng.choice(ports)
+        nw = 1 if cls == "MultiRead" else rng.choice(ports)
+        if rng.random() < (0.9 if want == "Z0" else 0.2 if cls == "MultiRead" else 0.05):
+            nw = 0  # ROM use
+        signed = rng.random() < 0.12 and width >= 2
+        elems, struct = 0, None
         if not signed and want != "F3" and rng.random() < (0.9 if want == "N1" else 0.12):
-            width, elems = rng.choice([(1, 4), (2, 2), (2, 3), (2, 4), (3, 2), (4, 2)])  # ArrayLayout rows
+            width, elems = rng.choice([(1, 4), (2, 2), (2, 3), (2, 4), (3, 2), (4, 2), (8, 2), (5, 3), (16, 2)])  # ArrayLayout rows
+        elif not signed and want is None and rng.random() < 0.07:  # StructLayout rows: [[field width, field signed], ...]
+            struct = [[rng.choice([1, 2, 3, 5, 8]), rng.random() < 0.4] for _ in range(rng.choice([2, 3, 4]))]
+            width = sum(f[0] for f in struct)
         gran = None
-        if cls != "XOR" and not signed and rng.random() < (0.8 if want in ("F5", "F6", "N1") else 0.4):
+        if cls != "XOR" and not signed and not struct and nw and rng.random() < (0.8 if want in ("F5", "F6", "N1") else 0.4):
             n = elems or width
             gran = rng.choice([g for g in range(1, n + 1) if n % g == 0])
-        lo, hi = (-(1 << (width - 1)), (1 << (width - 1)) - 1) if signed else (0, (1 << width) - 1)
+        tw = width * (elems or 1)
+        lo, hi = (-(1 << (width - 1)), (1 << (width - 1)) - 1) if signed else (0, (1 << tw) - 1)
         init = []
-        if not elems and rng.random() < (0.9 if want in ("F2", "F4") else 0.5):
+        if rng.random() < (0.9 if want in ("F2", "F4", "Z0") or nw == 0 else 0.5):
             n = rng.choice([depth, depth, rng.randint(1, depth)])
-            init = [rng.randint(lo, hi) if rng.random() < 0.8 else 0 for _ in range(n)]
+            init = [rng.randint(lo, hi) if rng.random() < 0.8 else 0 for _ in range(n)]  # raw bits of the row
         mode = rng.choice(["none", "all", "pairs", "pairs"])
         if want in ("F3", "F5"):
             mode = rng.choice(["all", "pairs"])
@@ -423,8 +519,12 @@ class Prop(PropBase):
                 transp.append(list(range(nw)))
             else:
                 transp.append([j for j in range(nw) if rng.random() < 0.5])
-        return {"cls": cls, "depth": depth, "width": width, "elems": elems, "signed": signed, "nr": nr, "nw": nw,
-                "init": init, "gran": gran, "transp": transp}
+        undriven = []
+        if rng.random() < 0.2:  # read ports whose enable is never assigned
+            undriven = [i for i in range(nr) if rng.random() < 0.5] or [rng.randrange(nr)]
+        return {"cls": cls, "depth": depth, "width": width, "elems": elems, "struct": struct, "signed": signed, "nr": nr,
+                "nw": nw, "init": init, "gran": gran, "transp": transp, "undriven": undriven,
+                "attrs": rng.random() < 0.15, "via_base": cls in ILVT and rng.random() < 0.2}
 
     def gen_config(self, rng, tier, idx):
         big = tier == "thorough"
@@ -432,15 +532,18 @@ class Prop(PropBase):
         if r < self.MIXED_RATE:
             target = "any"
         elif r < self.MIXED_RATE + self.ZONE_RATE:
-            target = rng.choice(["F2", "F3", "F4", "F5", "F6", "N1"])
+            target = rng.choice(["F2", "F3", "F4", "F5", "F6", "N1", "Z0"])
         else:
             target = None
         for _ in range(400):
             cfg = self._draw(rng, big, target if target != "any" else None)
             z = zones_of(cfg)
-            if target == "any" or z == ([target] if target else []):
+            live = [x for x in z if x in LIVE_ZONES and x != target]
+            if target == "any" or (not live and (target is None or target in z)):
                 break
         cycles = rng.randint(60, 260 if big else 180)
+        if cfg["nr"] * max(cfg["nw"], 1) >= 9:  # many blocks to simulate: shorter runs keep the batch time
+            cycles = min(cycles, 110)
         cfg["cycles"] = cycles
         cfg["plan"] = make_plan(rng, cycles, ["random", "random", "raw", "raw", "alt", "endrop", "collide", "idle"],
                                 min_len=6, max_len=30)
@@ -451,7 +554,7 @@ class Prop(PropBase):
 
     def features(self, cfg, viol):
         f = cfg_facts(cfg)
-        f["zone"] = "+".join(zones_of(cfg)) or "none"
+        f["zone"] = "+".join(z for z in zones_of(cfg) if z in LIVE_ZONES) or "none"  # repaired zones are ordinary
         info = viol.get("info") or {}
         f["port_transparent"] = info.get("port_transparent")
         return f
@@ -463,28 +566,35 @@ class Prop(PropBase):
 
     def cfg_signature(self, cfg):
         return [cfg.get(k) for k in ("cls", "depth", "width", "elems", "signed", "nr", "nw", "gran", "transp")] + \
-            [bool(cfg["init"])]
+            [bool(cfg["init"]), cfg.get("struct"), bool(cfg.get("undriven")), bool(cfg.get("attrs")),
+             bool(cfg.get("via_base"))]
 
     def shrink_cfg(self, cfg):
         """Smaller configurations inside the same class of known-defect predicates."""
-        z0 = zones_of(cfg)
+        z0 = [z for z in zones_of(cfg) if z in LIVE_ZONES]
 
         def ok(c):
-            return zones_of(c) == z0
+            return [z for z in zones_of(c) if z in LIVE_ZONES] == z0
 
         cands = []
         if cfg["nr"] > 1:
             for keep in range(cfg["nr"]):
                 c = dict(cfg)
                 c["nr"], c["transp"] = 1, [cfg["transp"][keep]]
+                c["undriven"] = [0] if keep in (cfg.get("undriven") or []) else []
                 cands.append(c)
+        if cfg["nr"] > 2:  # drop the last read port (the recorded stimulus of the others keeps its meaning)
+            c = dict(cfg)
+            c["nr"], c["transp"] = cfg["nr"] - 1, cfg["transp"][:-1]
+            c["undriven"] = [i for i in (cfg.get("undriven") or []) if i < c["nr"]]
+            cands.append(c)
         if cfg["nw"] > 1:
             c = dict(cfg)
             c["nw"] = cfg["nw"] - 1
             c["transp"] = [[j for j in t if j < c["nw"]] for t in cfg["transp"]]
             cands.append(c)
-        for d in (2, 3, 4, cfg["depth"] // 2, cfg["depth"] - 1):
-            if 2 <= d < cfg["depth"]:
+        for d in (1, 2, 3, 4, cfg["depth"] // 2, cfg["depth"] - 1):
+            if 1 <= d < cfg["depth"]:
                 c = dict(cfg)
                 c["depth"], c["init"] = d, cfg["init"][:d]
                 cands.append(c)
@@ -509,6 +619,19 @@ class Prop(PropBase):
             c = dict(cfg)
             c["width"], c["elems"] = total_width(cfg), 0
             cands.append(c)
+        if cfg.get("struct"):
+            c = dict(cfg)
+            c["struct"] = None
+            cands.append(c)
+        if cfg.get("undriven"):
+            c = dict(cfg)
+            c["undriven"] = []
+            cands.append(c)
+        for key in ("attrs", "via_base"):
+            if cfg.get(key):
+                c = dict(cfg)
+                c[key] = False
+                cands.append(c)
         for c in cands:
             if ok(c):
                 yield c
